@@ -16,15 +16,26 @@
 (* requests, so the target sees at most as many connections as there are   *)
 (* instances; without, exactly one connection per request.                 *)
 (*                                                                         *)
-(* Reuse = FALSE is the negative control: a client that silently drops its *)
-(* connection after every exchange although keep-alives are on.            *)
+(*   Fail(i)     the exchange fails (e.g. the response headers do not      *)
+(*               arrive within response-header-timeout): the client gives  *)
+(*               the connection up; its next request needs a new one       *)
+(*   Gap(i)      the instance idles between two shots, for less than the   *)
+(*               configured idle-conn-timeout: nothing happens to its      *)
+(*               pooled connection                                         *)
+(*                                                                         *)
+(* Negative controls: Reuse = FALSE, a client that silently drops its      *)
+(* connection after every exchange although keep-alives are on;            *)
+(* IdleDrop = TRUE, a client that drops its pooled connection during an    *)
+(* idle gap shorter than idle-conn-timeout.                                *)
 (***************************************************************************)
 EXTENDS Naturals, FiniteSets
 
 CONSTANTS Inst,      \* instance ids
           MaxReq,    \* requests per instance
           KAModes,   \* subset of BOOLEAN: keep-alive settings explored
-          Reuse      \* TRUE: the client pools its connection (the design)
+          Reuse,     \* TRUE: the client pools its connection (the design)
+          IdleDrop,  \* FALSE: an idle gap below idle-conn-timeout leaves the pooled connection alone (the design)
+          MaxFail    \* failed exchanges per instance explored
 
 VARIABLES ninst,     \* number of instances of this run
           ka,        \* keep-alives enabled for this run
@@ -33,8 +44,9 @@ VARIABLES ninst,     \* number of instances of this run
           nreq,      \* connection -> number of requests received on it
           pool,      \* instance -> its pooled connection, 0 if none
           busy,      \* instance -> connection with an exchange in flight, 0 if none
-          sent       \* instance -> requests sent so far
-vars == <<ninst, ka, cs, own, nreq, pool, busy, sent>>
+          sent,      \* instance -> requests sent so far
+          fails      \* instance -> exchanges that failed so far
+vars == <<ninst, ka, cs, own, nreq, pool, busy, sent, fails>>
 
 NoInst == "-"
 Conns == DOMAIN cs
@@ -42,6 +54,7 @@ Conns == DOMAIN cs
 Init == /\ ka \in KAModes /\ ninst = Cardinality(Inst)
         /\ cs = <<>> /\ own = <<>> /\ nreq = <<>>
         /\ pool = [i \in Inst |-> 0] /\ busy = [i \in Inst |-> 0] /\ sent = [i \in Inst |-> 0]
+        /\ fails = [i \in Inst |-> 0]
 
 Extend(f, c, v) == [x \in DOMAIN f \cup {c} |-> IF x = c THEN v ELSE f[x]]
 
@@ -50,6 +63,8 @@ DialEff(c) == /\ c \notin Conns
               /\ cs' = Extend(cs, c, "new") /\ own' = Extend(own, c, NoInst) /\ nreq' = Extend(nreq, c, 0)
 
 ActiveEff(c) == c \in Conns /\ cs' = [cs EXCEPT ![c] = "active"]
+
+FailEff(i) == fails' = [fails EXCEPT ![i] = @ + 1]
 
 ReqEff(i, c) == /\ c \in Conns
                 /\ own' = [own EXCEPT ![c] = IF @ = NoInst THEN i ELSE IF @ = i THEN i ELSE "shared"]
@@ -62,7 +77,7 @@ ClosedEff(c) == c \in Conns /\ cs' = [cs EXCEPT ![c] = "closed"]
 Dial(i) == /\ busy[i] = 0 /\ pool[i] = 0 /\ sent[i] < MaxReq
            /\ LET c == Cardinality(Conns) + 1
               IN  DialEff(c) /\ pool' = [pool EXCEPT ![i] = c]
-           /\ UNCHANGED <<ninst, ka, busy, sent>>
+           /\ UNCHANGED <<ninst, ka, busy, sent, fails>>
 
 Send(i) == /\ busy[i] = 0 /\ pool[i] # 0 /\ sent[i] < MaxReq
            /\ LET c == pool[i]
@@ -72,7 +87,7 @@ Send(i) == /\ busy[i] = 0 /\ pool[i] # 0 /\ sent[i] < MaxReq
                   /\ busy' = [busy EXCEPT ![i] = c]
            /\ pool' = [pool EXCEPT ![i] = 0]
            /\ sent' = [sent EXCEPT ![i] = @ + 1]
-           /\ UNCHANGED <<ninst, ka>>
+           /\ UNCHANGED <<ninst, ka, fails>>
 
 Respond(i) == /\ busy[i] # 0
               /\ LET c == busy[i]
@@ -81,19 +96,34 @@ Respond(i) == /\ busy[i] # 0
                      ELSE IF ka THEN IdleEff(c) /\ UNCHANGED pool      \* dropped by the client, still open at the target
                      ELSE ClosedEff(c) /\ UNCHANGED pool
               /\ busy' = [busy EXCEPT ![i] = 0]
-              /\ UNCHANGED <<ninst, ka, own, nreq, sent>>
+              /\ UNCHANGED <<ninst, ka, own, nreq, sent, fails>>
 
-Next == \E i \in Inst : Dial(i) \/ Send(i) \/ Respond(i)
+Fail(i) == /\ busy[i] # 0 /\ fails[i] < MaxFail
+           /\ ClosedEff(busy[i]) /\ FailEff(i)
+           /\ busy' = [busy EXCEPT ![i] = 0]
+           /\ UNCHANGED <<ninst, ka, own, nreq, pool, sent>>
+
+Gap(i) == /\ busy[i] = 0 /\ pool[i] # 0
+          /\ IF IdleDrop THEN ClosedEff(pool[i]) /\ pool' = [pool EXCEPT ![i] = 0]
+                         ELSE UNCHANGED <<cs, pool>>
+          /\ UNCHANGED <<ninst, ka, own, nreq, busy, sent, fails>>
+
+Next == \E i \in Inst : Dial(i) \/ Send(i) \/ Respond(i) \/ Fail(i) \/ Gap(i)
 Spec == Init /\ [][Next]_vars
 
 \* ---- the property ----
 TypeOK == /\ ka \in BOOLEAN
           /\ \A c \in Conns : cs[c] \in {"new", "active", "idle", "closed"}
 
-\* keep-alive: all requests of an instance travel on one connection ...
-OneConnPerInstance == ka => \A c1, c2 \in Conns : (own[c1] = own[c2] /\ own[c1] # NoInst) => c1 = c2
-\* ... so a target that keeps connections open sees no more connections than instances
-ConnsBounded == ka => Cardinality(Conns) <= ninst
+RECURSIVE SumOver(_, _)
+SumOver(f, S) == IF S = {} THEN 0 ELSE LET x == CHOOSE y \in S : TRUE IN f[x] + SumOver(f, S \ {x})
+ConnsOf(i) == {c \in Conns : own[c] = i}
+
+\* keep-alive: all requests of an instance travel on one connection - whatever the idle gaps below
+\* idle-conn-timeout - except that a failed exchange costs the instance its connection ...
+OneConnPerInstance == ka => \A i \in DOMAIN fails : Cardinality(ConnsOf(i)) <= 1 + fails[i]
+\* ... so a target that keeps connections open sees no more connections than instances (+ failed exchanges)
+ConnsBounded == ka => Cardinality(Conns) <= ninst + SumOver(fails, DOMAIN fails)
 \* per-instance clients: a connection is never used by two instances
 NotShared == \A c \in Conns : own[c] # "shared"
 \* disable-keep-alives: one connection per request
